@@ -322,9 +322,10 @@ class MessageQueue(Entity):
 
         yield self._delivery_latency
 
-        # Create delivery event
+        # Create delivery event (stamped after the latency wait, so that it
+        # is not in the past when the simulation schedules it)
         delivery_event = Event(
-            time=now,
+            time=self._clock.now if self._clock else Instant.Epoch,
             event_type="message_delivery",
             target=consumer,
             context={
